@@ -149,11 +149,7 @@ func slotWrite(scalar, term string) (string, error) {
 }
 
 func (f *fn) constIndex(e ast.Expr) (int, bool) {
-	tv, ok := f.info.Types[e]
-	if !ok || tv.Value == nil {
-		return 0, false
-	}
-	i, ok := constant.Int64Val(constant.ToInt(tv.Value))
+	i, ok := f.constInt(e)
 	return int(i), ok
 }
 
@@ -196,8 +192,18 @@ func (f *fn) expr(e ast.Expr) (val, error) {
 		if err != nil {
 			return val{}, err
 		}
+		if b.ext != nil {
+			// a local of an external struct type as a value: the fields the function mentions, in
+			// declaration order (as for a composite literal of that type)
+			if v, ok := f.extValue(x, b); ok {
+				return v, nil
+			}
+		}
 		if b.tok || b.closure != nil || b.ext != nil {
 			return val{}, f.errf(x, "%s is a handle / closure / external struct and cannot be used as a value here", x.Name)
+		}
+		if b.cval != nil {
+			return val{term: zlit(fmt.Sprint(*b.cval)), t: b.t}, nil
 		}
 		return val{term: b.name, t: b.t}, nil
 	case *ast.UnaryExpr:
@@ -376,6 +382,16 @@ func (f *fn) index(x *ast.IndexExpr) (val, error) {
 		}
 		return val{term: proj(a.term, k, len(a.t.elems)), pre: a.pre, t: a.t.elems[k]}, nil
 	case kList:
+		// X[i] inside `for i := range X` (X and i not written by the body): the element
+		if id, ok := ast.Unparen(x.Index).(*ast.Ident); ok {
+			for j := len(f.ranges) - 1; j >= 0; j-- {
+				re := f.ranges[j]
+				if f.info.Uses[id] == re.key && f.src(x.X) == re.src {
+					re.used = true
+					return val{term: re.name, t: re.t}, nil
+				}
+			}
+		}
 		i, err := f.expr(x.Index)
 		if err != nil {
 			return val{}, err
@@ -643,7 +659,7 @@ func (f *fn) callExpr(x *ast.CallExpr) (val, error) {
 		if err != nil {
 			return val{}, err
 		}
-		if inf.res || inf.world || inf.mutRecv || len(inf.results) != 1 {
+		if inf.res || inf.world || inf.mutRecv || len(inf.mutPar) != 0 || len(inf.results) != 1 {
 			return val{}, f.errf(x, "call of %s must be a statement of its own", fnObj.Name())
 		}
 		args, pre, err := f.userArgs(x, inf)
@@ -804,8 +820,18 @@ func (f *fn) builtin(x *ast.CallExpr, name string) (val, error) {
 		case kMap:
 			return val{term: "[]", t: t}, nil
 		case kList:
+			if len(x.Args) == 3 {
+				// make([]T, 0, c) with c >= 0 by construction: the empty slice (the capacity has no meaning here)
+				if n, ok := f.constInt(x.Args[1]); !ok || n != 0 || !f.nonNeg(x.Args[2]) {
+					return val{}, f.errf(x, "make of a slice with a capacity is understood only as make([]T, 0, c) with c a length or a non-negative constant")
+				}
+				return val{term: "[]", t: t}, nil
+			}
 			if len(x.Args) != 2 {
-				return val{}, f.errf(x, "make of a slice with a capacity is not understood")
+				return val{}, f.errf(x, "make form is not understood")
+			}
+			if n, ok := f.constInt(x.Args[1]); ok && n == 0 {
+				return val{term: "[]", t: t}, nil
 			}
 			n, err := f.expr(x.Args[1])
 			if err != nil {
@@ -952,4 +978,79 @@ func (f *fn) composite(x *ast.CompositeLit) (val, error) {
 		return val{term: tuple(parts), pre: pre, t: tupleOf(ts)}, nil
 	}
 	return val{}, f.errf(x, "composite literal of %s is not understood", gt)
+}
+
+// nonNeg: an int expression that cannot be negative: a constant >= 0, len(..) / cap(..), and
+// sums, products with and quotients by such constants
+func (f *fn) nonNeg(e ast.Expr) bool {
+	if n, ok := f.constInt(e); ok {
+		return n >= 0
+	}
+	switch x := ast.Unparen(e).(type) {
+	case *ast.Ident:
+		if b := f.env[f.info.Uses[x]]; b != nil {
+			return b.nonneg
+		}
+	case *ast.CallExpr:
+		if id, ok := ast.Unparen(x.Fun).(*ast.Ident); ok && (id.Name == "len" || id.Name == "cap") {
+			_, isB := f.info.Uses[id].(*types.Builtin)
+			return isB
+		}
+		// int(x) of an unsigned value of at most 32 bits
+		if tv, ok := f.info.Types[x.Fun]; ok && tv.IsType() && len(x.Args) == 1 {
+			if t, ok := tv.Type.Underlying().(*types.Basic); ok && (t.Kind() == types.Int || t.Kind() == types.Int64) {
+				if a, ok := f.info.TypeOf(x.Args[0]).Underlying().(*types.Basic); ok {
+					switch a.Kind() {
+					case types.Uint8, types.Uint16, types.Uint32:
+						return true
+					}
+				}
+			}
+		}
+	case *ast.BinaryExpr:
+		switch x.Op {
+		case token.ADD:
+			return f.nonNeg(x.X) && f.nonNeg(x.Y)
+		case token.MUL:
+			if c, ok := f.constInt(x.Y); ok && c >= 0 && c <= 1024 {
+				return f.nonNeg(x.X)
+			}
+			if c, ok := f.constInt(x.X); ok && c >= 0 && c <= 1024 {
+				return f.nonNeg(x.Y)
+			}
+		case token.QUO:
+			if c, ok := f.constInt(x.Y); ok && c > 0 {
+				return f.nonNeg(x.X)
+			}
+		}
+	}
+	return false
+}
+
+func (f *fn) extValue(id *ast.Ident, b *binding) (val, bool) {
+	t := f.info.TypeOf(id)
+	if p, ok := t.(*types.Pointer); ok {
+		t = p.Elem()
+	}
+	n, _ := t.(*types.Named)
+	if n == nil {
+		return val{}, false
+	}
+	st, ok := n.Underlying().(*types.Struct)
+	if !ok {
+		return val{}, false
+	}
+	var parts []string
+	var ts []*cty
+	for i := 0; i < st.NumFields(); i++ {
+		if pb := b.ext[st.Field(i).Name()]; pb != nil {
+			parts = append(parts, pb.name)
+			ts = append(ts, pb.t)
+		}
+	}
+	// every path the function mentions must be a direct field (no nested paths)
+	if len(parts) == 0 || len(parts) != len(b.ext) {
+		return val{}, false
+	}
+	return val{term: tuple(parts), t: tupleOf(ts)}, true
 }
